@@ -85,10 +85,12 @@ def gen_spec(seed):
         quali[f'k{j}'] = v
     spec = {'task': task, 'quanti': quanti, 'quali': quali, 'y': y,
             'n_best': rng.randint(1, max(1, nq + nk)), 'thresh_corr': rng.choice([1, 1, 0.9, 0.7, 0.5]),
-            'measures': rng.choice(['default', 'default', 'alt'] + (['outlier', 'multi'] if task == 'classification' else [])),
+            'measures': rng.choice(['default', 'default', 'alt'] + (['outlier', 'outlier_iqr', 'multi'] if task == 'classification' else [])),
             'copy_of_target': False, 'select_twice': rng.random() < 0.3 and not r_only,
             # user-set screens on the share of the mode / of missing values (None: the defaults, 0.999)
             'thresh_mode': rng.choice([None, None, 0.9, 0.6, 0.5]), 'thresh_nan': rng.choice([None, None, None, 0.5, 0.3])}
+    if not r_only and rng.random() < 0.08:
+        spec['colsample'] = 0.5         # features first screened in random halves (n_best // 2 kept per half), then together
     if r_only:
         spec['measures'] = 'ronly'
         if rng.random() < 0.7:
@@ -138,6 +140,8 @@ def make_selector(spec):
     from AutoCarver import selectors as S
     kw = dict(n_best=spec['n_best'], quantitative_features=list(spec['quanti']), qualitative_features=list(spec['quali']),
               thresh_corr=spec['thresh_corr'])
+    if spec.get('colsample'):
+        kw['colsample'] = spec['colsample']
     if spec.get('thresh_mode') is not None:
         kw['thresh_mode'] = spec['thresh_mode']
     if spec.get('thresh_nan') is not None:
@@ -146,6 +150,9 @@ def make_selector(spec):
         if spec['measures'] == 'outlier':       # user-supplied outlier screen before the association measure
             kw['quantitative_measures'] = [S.zscore_measure, S.kruskal_measure]
             kw['thresh_zscore'] = 0.03
+        if spec['measures'] == 'outlier_iqr':   # the other public outlier screen (inter-quartile range)
+            kw['quantitative_measures'] = [S.iqr_measure, S.kruskal_measure]
+            kw['thresh_iqr'] = 0.05
         if spec['measures'] == 'ronly':         # a user-chosen measure: the correlation ratio (R of x on the classes of y)
             kw['quantitative_measures'] = [S.R_measure]
         if spec['measures'] == 'multi':         # two association measures, both evaluated
@@ -276,6 +283,18 @@ def zscore_discards(x, thresh):
     return not (out / len(x) < thresh)
 
 
+def iqr_discards(x, thresh):
+    """share of the rows outside [q1 - 1.5 iqr, q3 + 1.5 iqr] (quartiles of the known values, linear interpolation;
+    a row without value is outside, as in the library) not below the threshold"""
+    nn = np.array([v for v in x if v is not None], dtype=float)
+    if len(nn) == 0:
+        return True
+    q1, q3 = np.percentile(nn, 25), np.percentile(nn, 75)
+    lo, hi = q1 - 1.5 * (q3 - q1), q3 + 1.5 * (q3 - q1)
+    out = sum(1 for v in x if v is None or not (lo <= v <= hi))
+    return not (out / len(x) < thresh)
+
+
 def reference_measure(spec, f, which=0):
     """independent value of the ranking measure of feature f, or None when undefined / discarded;
     `which` selects the measure when several are evaluated (spec['measures'] == 'multi')"""
@@ -292,6 +311,8 @@ def reference_measure(spec, f, which=0):
             return None
         if spec['task'] == 'classification':
             if spec['measures'] == 'outlier' and zscore_discards(x, 0.03):
+                return None
+            if spec['measures'] == 'outlier_iqr' and iqr_discards(x, 0.05):
                 return None
             if (spec['measures'] == 'multi' and which == 1) or spec['measures'] == 'ronly':
                 return eta(x, y)
@@ -411,12 +432,16 @@ def case_of_spec(spec, cid, meta):
             mrefs = [[scaled(reference_measure(spec, f, k)) if f in names else -1 for f in feats] for k in range(nm)]
             mcodes = [[scaled((cm.get(f) or [None] * nm)[k] if (f in names and len(cm.get(f) or []) > k) else None) for f in feats] for k in range(nm)]
             groups.append({'feats': [fid[f] for f in names], 'sel': [fid[f] for f in res if f in names],
-                           'nbest': spec['n_best'], 'thr': scaled(spec['thresh_corr']), 'mrefs': mrefs, 'mcodes': mcodes})
+                           'nbest': spec['n_best'], 'thr': scaled(spec['thresh_corr']), 'mrefs': mrefs, 'mcodes': mcodes,
+                           # random column sampling: which features reach the final round is not determined by the data
+                           'sampled': bool(spec.get('colsample'))})
     mref = [max((g['mrefs'][0][i] for g in groups), default=-1) for i in range(len(feats))]
     mcode = [max((g['mcodes'][0][i] for g in groups), default=-1) for i in range(len(feats))]
     must = [fid[spec['copy_of_target']]] if spec.get('copy_of_target') else []
     if must and reference_measure(spec, spec['copy_of_target']) is None:
         must = []       # the copy itself fails a user-set screen (share of its mode / of missing values): nothing is owed
+    if spec.get('colsample'):
+        must = []       # (with n_best // 2 = 0 a half returns nothing)
     meta = dict(meta)
     meta.update({'task': spec['task'], 'measures': spec['measures'], 'selected': list(res), 'exc': None if exc is None else repr(exc)[:300],
                  'default_regression_quantitative': spec['task'] == 'regression' and bool(spec['quanti'])})
@@ -466,6 +491,7 @@ def reencodings(spec, seed):
 
 def reencode_case(seed):
     spec = gen_spec(seed)
+    spec.pop('colsample', None)         # random column sampling is not a function of the data
     feats = list(spec['quanti']) + list(spec['quali'])
     fid = {f: i + 1 for i, f in enumerate(feats)}
 
